@@ -419,7 +419,12 @@ def rule_sender(program, ctx):
                 ctx.ok(rid, st, f"`{var}` is rebuilt from the dequeued pair on every path to ws_send")
     # mapping of the two branches
     frame_vars = {c.args[0].id for sn in sends for c in own_calls(cfg.ast_of(sn)) if call_name(c) == "ws_send" and c.args and isinstance(c.args[0], ast.Name)}
-    msg_assigns = [s for s in walk_no_nested(fn) if isinstance(s, ast.Assign) and isinstance(s.targets[0], ast.Name) and s.targets[0].id in frame_vars]
+    # close over name-to-name re-bindings (payload = tmp; tmp = json_dumps(…))
+    for _ in range(3):
+        for s_ in walk_no_nested(fn):
+            if isinstance(s_, ast.Assign) and isinstance(s_.targets[0], ast.Name) and s_.targets[0].id in frame_vars and isinstance(s_.value, ast.Name):
+                frame_vars.add(s_.value.id)
+    msg_assigns = [s for s in walk_no_nested(fn) if isinstance(s, ast.Assign) and isinstance(s.targets[0], ast.Name) and s.targets[0].id in frame_vars and not isinstance(s.value, ast.Name)]
     eose = [s for s in msg_assigns if any(isinstance(k, ast.Constant) and isinstance(k.value, str) and "EOSE" in k.value for k in ast.walk(s.value))]
     evs = [s for s in msg_assigns if any(isinstance(c, ast.Call) and call_name(c) == "event_as_json" for c in ast.walk(s.value))]
     if not eose:
